@@ -6,26 +6,6 @@ def add(id, what, match, pinned, fix=None):
         e["fix_candidate"] = fix
     F.append(e)
 
-add("C04/openapi/enum-without-type",
-    "OpenAPI `enum` without (or with an empty) `type`: walkEnum indexes schema.Type.Slice()[0] -> index out of range (also with validation on: the document is valid OpenAPI)",
-    r"frame=internal/openapi\.\(\*generator\)\.walkEnum msg=runtime error: index out of range",
-    "./check C04 --replay corpus:corpus/openapi-enum-without-type   ({components:{schemas:{E:{enum:[a,b]}}}})",
-    "small safe fix: `if len(schema.Type.Slice()) == 0 { return ast.Type{}, errors.New(\"enum without type\") }` in walkEnum")
-add("C04/openapi/array-without-items",
-    "OpenAPI `type: array` without `items` (input `no_validate: true`): walkArray passes the nil *SchemaRef to walkSchemaRef -> nil dereference",
-    r"frame=internal/openapi\.\(\*generator\)\.walkSchemaRef msg=runtime error: invalid memory address",
-    "./check C04 --replay corpus:corpus/openapi-array-without-items",
-    "small safe fix: nil check in walkSchemaRef returning an error")
-add("C04/openapi/unresolved-ref-nil-value",
-    "OpenAPI component / property whose SchemaRef.Value is nil (alias cycle `A: $ref B, B: $ref A`, unresolved refs): schemaComments(schemaRef.Value) dereferences nil",
-    r"frame=internal/openapi\.schemaComments msg=runtime error: invalid memory address",
-    "./check C04 --replay corpus:corpus/openapi-alias-cycle",
-    "small safe fix: `if schema == nil { return nil }` in schemaComments (and an error in walkDefinitions for a nil Value)")
-add("C04/jsonschema/tuple-items",
-    "JSON Schema (drafts up to 2019-09) tuple-form `items: [..]`: walkList asserts schema.Items.(*Schema) unchecked -> interface conversion panic",
-    r"frame=internal/jsonschema\.\(\*generator\)\.walkList msg=interface conversion",
-    "./check C04 --replay corpus:corpus/jsonschema-tuple-items-draft07",
-    "small safe fix: comma-ok assertion returning an `unsupported tuple items` error")
 add("C04/enum/member-value-not-string",
     "enum whose members are typed `string` (JSON Schema types all members after the first value; OpenAPI by `type`) but hold a non-string value (`enum: [\"a\", 1]`, `[1,2]` under type string, null): PrefixEnumValues (Go) / SanitizeEnumMemberNames (PHP) assert member.Value.(string)",
     r"frame=internal/ast/compiler\.\(\*(PrefixEnumValues|SanitizeEnumMemberNames)\)\.\w+ msg=interface conversion: interface \{\} is .*not string",
@@ -106,16 +86,6 @@ add("C04/java/default-value-type-assertion",
     "default value whose dynamic type does not match the scalar kind (`type: number, default: \"x\"`): java formatType asserts .(float64) / .(int64)",
     r"frame=internal/jennies/java\.formatType\.func\d+ msg=interface conversion",
     "mutation of testdata/schemas/defaults (cue-rhs:float64), e.g. seed 1 mut/192")
-add("C04/config/null-list-element",
-    "`inputs: [~]` / `output: {languages: [~]}`: yaml.v3 decodes a null list element to a nil pointer; interpolateParameters / OutputLanguages dereference it",
-    r"frame=internal/codegen\.\(\*(Input|OutputLanguage|Pipeline|Output)\)\.\w+ msg=runtime error: invalid memory address",
-    "./check C04 --replay corpus:corpus-config/inputs-null-element ; corpus:corpus-config/languages-null-element",
-    "small safe fix: nil checks returning `empty input` / `empty language configuration`")
-add("C04/config/null-document",
-    "a compiler-passes or veneers file whose document is `~` / `null`: the loaders decode into a pointer-to-pointer, yaml.v3 sets it to nil, `compilerConfig.Passes` / `veneers.Package` dereference nil",
-    r"frame=internal/yaml\.\(\*(CompilerLoader|VeneersLoader)\)\.\w+ msg=runtime error: invalid memory address",
-    "./check C04 --replay corpus:corpus-config/passes-file-null ; corpus:corpus-config/veneers-file-null",
-    "small safe fix: decode into the struct value (`decoder.Decode(compilerConfig)`) or nil-check after decoding")
 add("C04/config/templates-directory",
     "`extra_files_templates` / `overrides_templates` naming a directory that does not exist (or holding a file that is not a template): initTemplates panics `could not initialize templates: …` instead of returning the error",
     r"frame=internal/jennies/\w+\.initTemplates msg=could not initialize templates",
@@ -146,7 +116,9 @@ add("C04/yaml/implements-variant-not-string",
     "`implements_variant` hint that is not a string (hint_object with a number / null; `hints: {implements_variant: ~}` in an `as:` type): Type.ImplementedVariant / IsDataqueryVariant assert .(string)",
     r"frame=internal/ast\.Type\.(ImplementedVariant|IsDataqueryVariant)\S* msg=interface conversion",
     "harness c04-run streams=config, e.g. seed 1 config/3437 — Lean witness C04.wVariantHint")
+# fixed in /repo and therefore removed here: openapi/enum-without-type 70c59a6, openapi/array-without-items 4e6f2a6, openapi/unresolved-ref-nil-value ca4fdd6,
+# jsonschema/tuple-items f0d68ac, config/null-list-element 15208a9, config/null-document 4823a7e, yaml/hint-object-nil-map d683cb9, fromast/dangling-alias eed3e31
 doc = {"comment": "PROPOSED known-findings entries of property C04 (to be merged into /verif/known_findings.json by the coordinator). checks/c04.py reads this file, /verif/.work/proposed_findings_C04.json and known_findings.json.", "findings": F}
-for p in ("/verif/.work/proposed_findings_C04.json", "/verif/checks/c04.findings.json"):
+for p in ("/verif/.work/proposed_findings_C04.json",):
     json.dump(doc, open(p, "w"), indent=1)
 print(len(F))
